@@ -294,14 +294,15 @@ def rule_peer_scalar(S, res):
 # R1.iv: sinks on own containers that only run when a peer-chosen optional slot is present.
 # Reviewed instances (function, container variable): why the index is in range for every message.
 R1IV_TABLE = {
-    ("input_processing", "input_labels:Vec<Option<Vec<Label>>>"): "evaluator fan-in: `input_labels[w]` with w < max_reg_count from enumerate over a vector of validated length max_reg_count; container is vec![None; max_reg_count]",
-    ("input_processing", "labels:Vec<Label>"): "evaluator fan-in: `labels[p]` with p the sender index (< p_max) into vec![Label(0); p_max]",
-    ("output", "output_wires"): "`output_wires[out]` with out from circ.output_regs (< max_reg_count by Circuit::validate P2) into vec![None; max_reg_count]",
-    ("flaand", "zshares"): "`zshares[ll].1.0[j]` with ll < l (own length, checked against xshares/yshares/rshares) and j < n into vec![..; n]",
-    ("evaluate", "label:Vec<Label>"): "`label[p_i]` with p_i from (0..p_max).filter(..) into vec![Label(0); p_max]; runs when the decrypted MAC vector has an entry for p_i",
-    ("evaluate", "macs"): "`macs[p]` same index as label[p] into vec![vec![]; p_max]",
-    ("check_dvalue", "buckets"): "`buckets[j][m + 1]`: m bounded by the fail-closed length test d_macs_p.len() == dval.len() == bucket.len() - 1",
-    ("beaver_aand", "de_shares"): "`de_shares[j]` with j from enumerate over a vector of validated length l == de_shares.len()",
+    # (function, container type) -> (reviewed number of sites, why the index is in range for every message)
+    ("input_processing", "Vec<Option<Vec<Label>>>"): (1, "evaluator fan-in: `input_labels[w]` with w < max_reg_count from enumerate over a vector of validated length max_reg_count; container is vec![None; max_reg_count]"),
+    ("input_processing", "Vec<Label>"): (1, "evaluator fan-in: `labels[p]` with p the sender index (< p_max) into vec![Label(0); p_max]"),
+    ("output", "Vec<Option<bool>>"): (1, "`output_wires[out]` with out from circ.output_regs (< max_reg_count by Circuit::validate P2) into vec![None; max_reg_count]"),
+    ("flaand", "Vec<Share>"): (2, "`zshares[ll].1.0[j]` with ll < l (own length, checked against xshares/yshares/rshares) and j < n into vec![..; n]"),
+    ("evaluate", "Vec<Label>"): (1, "`label[p_i]` with p_i from (0..p_max).filter(..) into vec![Label(0); p_max]; runs when the decrypted MAC vector has an entry for p_i"),
+    ("evaluate", "Vec<Vec<Mac>>"): (1, "`macs[p]` same index as label[p] into vec![vec![]; p_max]"),
+    ("check_dvalue", "Vec<Vec<(&Share, &Share, &Share)>>"): (1, "`buckets[j][m + 1]`: m bounded by the fail-closed length test d_macs_p.len() == dval.len() == bucket.len() - 1"),
+    ("beaver_aand", "Vec<(bool, bool, Mac, Mac)>"): (1, "`de_shares[j]` with j from enumerate over a vector of validated length l == de_shares.len()"),
 }
 
 
@@ -621,7 +622,10 @@ def rule_peer_controlled_sinks(S, res):
             back = fg.backward(cn, node_ok=lambda x: x[0] == bk, edge_ok=secmod.struct_edge)
             rl = root_local(b, t["args"][0])
             var = b.locals[rl]["name"] if rl is not None and b.locals[rl]["name"] else "?"
-            if any(x in strict_comp for x in back) and var not in ("input_labels", "labels"):
+            # (an own container that merely holds message parts - allocated here with vec![..; n] - stays in scope)
+            bl = {x[1] for x in back if x[0] == bk}
+            own_alloc = any(ct["d"]["l"] in bl and any(x.endswith("vec::from_elem") for x in callee_names(ct)) for _cbi, ct in b.calls())
+            if any(x in strict_comp for x in back) and not own_alloc:
                 continue
             fn = b.owner.rsplit("::", 1)[-1]
             cty = norm_ty(t["args"][0]["p"]["ty"]) if t["args"][0]["k"] != "const" else "?"
@@ -630,7 +634,7 @@ def rule_peer_controlled_sinks(S, res):
             if proof:
                 proven.append((fn, short, b, bi, proof))
                 continue
-            found.setdefault((fn, "%s:%s" % (var, short)), (b, bi))
+            found.setdefault((fn, short), []).append((b, bi, var))
         # built-in slice / array indexing: Assert(BoundsCheck)
         for bi, blk in enumerate(b.blocks):
             t = blk["t"]
@@ -658,15 +662,20 @@ def rule_peer_controlled_sinks(S, res):
                             cty = cand.get("ty", "?")
             fn = b.owner.rsplit("::", 1)[-1]
             short = norm_ty(cty).replace("alloc::vec::", "").replace("core::option::", "").replace("polytune::mpc::data_types::", "")
-            found.setdefault((fn, "%s:[%s]" % (var, short)), (b, bi))
+            found.setdefault((fn, "[%s]" % short), []).append((b, bi, var))
     for (fn, short, b, bi, proof) in proven:
         res.ok("R1.iv", "%s|%s[]@%s" % (fn, short, where(b, bi).rsplit(":", 1)[-1]), where(b, bi), "index in range: container is vec![_; n] and the index is bounded by the same n = %s" % proof)
-    for (fn, var), (b, bi) in sorted(found.items()):
-        if (fn, var) in R1IV_TABLE:
-            res.ok("R1.iv", "%s|%s[]" % (fn, var), where(b, bi), "reviewed: " + R1IV_TABLE[(fn, var)])
+    for (fn, cty), sites in sorted(found.items(), key=lambda kv: kv[0]):
+        b, bi, var = sites[0]
+        ent = R1IV_TABLE.get((fn, cty))
+        if ent and len(sites) <= ent[0]:
+            res.ok("R1.iv", "%s|%s[]" % (fn, cty), where(b, bi), "reviewed (%d site(s), variable `%s`): %s" % (len(sites), var, ent[1]))
+        elif ent:
+            b2, bi2, var2 = sites[-1]
+            res.bad("R1.iv", "%s|%s[]" % (fn, cty), "%d index sites into own data of type %s only run when a peer chose to fill an optional slot, %d were reviewed" % (len(sites), cty, ent[0]), where(b2, bi2))
         else:
-            res.bad("R1.iv", "%s|%s[]" % (fn, var), "an index into own data `%s[..]` only runs when a peer chose to fill an optional slot; the site is not in the reviewed table (an honest peer's message shape may be what keeps the index in range)" % var, where(b, bi))
-    res.count("peer_controlled_index_sites", len(found) + len(proven))
+            res.bad("R1.iv", "%s|%s[]" % (fn, cty), "an index into own data `%s[..]` (%s) only runs when a peer chose to fill an optional slot; the site is not in the reviewed table (an honest peer's message shape may be what keeps the index in range)" % (var, cty), where(b, bi))
+    res.count("peer_controlled_index_sites", sum(len(v) for v in found.values()) + len(proven))
 
 
 ERR_TYPES = ("polytune::channel::Error", "polytune::mpc::faand::Error", "polytune::mpc::protocol::Error", "polytune::mpc::garble::Error",
